@@ -46,6 +46,12 @@ type Stress struct {
 	// it sleeps or after it has replied, alternating - and closes it itself before it returns. It is a
 	// handler that was started all the same: Shutdown waits for it
 	Hijack int `json:",omitempty"`
+	// Server.WriteTimeout in microseconds (round 9; 0 = not set): mostly shorter than the handlers'
+	// sleep, so that handlers which are in flight when Shutdown is called answer later than that after
+	// the call. No timeout of the server takes the reply of a started handler away (I2): a WriteMsg of
+	// a handler of this run must not fail - the clients keep their connections until Shutdown and the
+	// serve call have returned
+	WriteTimeoutUs int `json:",omitempty"`
 }
 
 func genStress(t *rapid.T) Stress {
@@ -87,6 +93,7 @@ func genStress(t *rapid.T) Stress {
 	if rapid.IntRange(0, 3).Draw(t, "hijackOn") == 0 { // drawn last
 		s.Hijack = rapid.SampledFrom([]int{1, 1, 2, 3}).Draw(t, "hijackEvery")
 	}
+	s.WriteTimeoutUs = rapid.SampledFrom([]int{0, 0, 20, 100, 300, 3600000000}).Draw(t, "writeTimeoutUs") // drawn after everything else
 	return s
 }
 
@@ -115,6 +122,8 @@ type stressRun struct {
 	hijacked atomic.Int32 // handlers that took their connection over
 	late     atomic.Int32 // handlers that started after Shutdown had returned
 	overlap  atomic.Int32 // Shutdown was called while a handler was active (sampled)
+	writeBad atomic.Int32 // replies of handlers of this run that could not be written
+	writeMsg atomic.Value // the first such error
 }
 
 // slowProvider is an HMAC-SHA256 TsigProvider whose Verify can be made slow: the request octets
@@ -170,7 +179,11 @@ func (r *stressRun) handler(w dns.ResponseWriter, req *dns.Msg) {
 	m := new(dns.Msg)
 	m.SetReply(req)
 	m.Answer = []dns.RR{&dns.TXT{Hdr: dns.RR_Header{Name: req.Question[0].Name, Rrtype: dns.TypeTXT, Class: dns.ClassINET}, Txt: []string{"tok-" + req.Question[0].Name}}}
-	w.WriteMsg(m)
+	if err := w.WriteMsg(m); err != nil && strings.Contains(req.Question[0].Name, r.nonce) {
+		if r.writeBad.Add(1) == 1 {
+			r.writeMsg.Store(fmt.Sprintf("request %s: %v", req.Question[0].Name, err))
+		}
+	}
 	if hijack {
 		r.hijacked.Add(1)
 		w.Hijack()
@@ -186,7 +199,8 @@ func checkStress(s Stress) error {
 		return nil
 	}
 	r := &stressRun{s: s, nonce: newNonce()}
-	srv := &dns.Server{ReadTimeout: time.Hour, IdleTimeout: func() time.Duration { return time.Hour }, Handler: dns.HandlerFunc(r.handler), MaxTCPQueries: s.MaxTCP}
+	srv := &dns.Server{ReadTimeout: time.Hour, IdleTimeout: func() time.Duration { return time.Hour }, Handler: dns.HandlerFunc(r.handler), MaxTCPQueries: s.MaxTCP,
+		WriteTimeout: time.Duration(s.WriteTimeoutUs) * time.Microsecond}
 	if s.TsigDelayUs > 0 {
 		srv.UDPSize = 4096
 		srv.MsgAcceptFunc = func(dns.Header) dns.MsgAcceptAction { return dns.MsgAccept } // nine additional records
@@ -231,6 +245,14 @@ func checkStress(s Stress) error {
 	}
 	if r.hijacked.Load() > 0 {
 		cl = append(cl, "handler-hijacks")
+	}
+	switch {
+	case s.WriteTimeoutUs == 0:
+		cl = append(cl, "writeTimeout=default")
+	case s.WriteTimeoutUs <= 1000:
+		cl = append(cl, "writeTimeout=20..300us")
+	default:
+		cl = append(cl, "writeTimeout=1h")
 	}
 	pbt.Note(key, overlapAny || s.Mode == "blind" || s.Restarts > 1, cl...)
 	return nil
@@ -556,6 +578,9 @@ func (r *stressRun) cycle(srv *dns.Server, cycle int) (overlap bool, err error) 
 	}
 	if n := r.late.Load(); n != 0 {
 		return false, fmt.Errorf("I3: %d handler(s) were started after Shutdown had returned", n)
+	}
+	if n := r.writeBad.Load(); n != 0 {
+		return false, fmt.Errorf("I2: %d reply(ies) of handlers of this run could not be written although their clients were still there (WriteTimeout = %v): %v", n, time.Duration(s.WriteTimeoutUs)*time.Microsecond, r.writeMsg.Load())
 	}
 	if n := r.tsigBad.Load(); n != 0 {
 		return false, fmt.Errorf("%d correctly signed request(s) reached the handler unverified or with a bad TsigStatus (the request octets changed while they were being verified): %v", n, r.tsigMsg.Load())
